@@ -143,7 +143,7 @@ def build_plan(choice: Choice, tier: str, family: str):
         lazy = d(3, "lazy")
         call["lazy"] = lazy != 0
         # type of a non-lazy input: any finite iterable must do
-        call["input_type"] = ["list", "tuple", "iterator", "range-like", "list"][d(5, "input.type")]
+        call["input_type"] = ["list", "tuple", "iterator", "range-like", "list", "deque", "int-only-sequence"][d(7, "input.type")]
         # 'exact': the caller takes exactly len(data) results (zip / islice style), never asks for StopIteration and
         # drops the generator afterwards
         call["consume"] = "exact" if d(6, "consume") == 5 else "full"
@@ -414,6 +414,24 @@ class RangeLike:
         return iter([(self.c, i) for i in range(self.n)])
 
 
+import collections.abc as _abc
+
+
+class IntOnlySequence(_abc.Sequence):
+    """A user Sequence whose __getitem__ accepts integers only."""
+
+    def __init__(self, items):
+        self._items = list(items)
+
+    def __len__(self):
+        return len(self._items)
+
+    def __getitem__(self, i):
+        if not isinstance(i, int):
+            raise TypeError("integer indexes only")
+        return self._items[i]
+
+
 def typed_input(c, call):
     items = [(c, i) for i in range(call["n"])]
     t = call.get("input_type", "list")
@@ -423,6 +441,11 @@ def typed_input(c, call):
         return iter(items)
     if t == "range-like":
         return RangeLike(c, call["n"])
+    if t == "deque":
+        import collections
+        return collections.deque(items)        # a Sequence that rejects slices
+    if t == "int-only-sequence":
+        return IntOnlySequence(items)
     return items
 
 
